@@ -384,7 +384,7 @@ func (p *Program) ruleConvexGate(c *Check) {
 			}
 			// degenerate segment (A == B) and the on-edge case analysis of ringContainsSegment
 			if fn == rcs {
-				if bo, ok := cond.(*ssa.BinOp); ok && bo.Op == token.EQL && derivedFromParam(bo.X, fn.Params[1]) && derivedFromParam(bo.Y, fn.Params[1]) {
+				if bo, ok := cond.(*ssa.BinOp); ok && bo.Op == token.EQL && isStructType(bo.X.Type()) && derivedFromParam(bo.X, fn.Params[1]) && derivedFromParam(bo.Y, fn.Params[1]) {
 					removedAll[te] = true
 				}
 				if len(fn.Params) >= 3 && cond == ssa.Value(fn.Params[2]) {
